@@ -175,9 +175,16 @@ func sortSlice(e *Engine, st *State, instr ssa.Instruction, fn *ssa.Function, ar
 	es := e.sortOf(sl.Elem())
 	h := e.heapGet(st, c, srt)
 	reg, off, ln := sx("sl_reg", sv.T), sx("sl_off", sv.T), sx("sl_len", sv.T)
-	old := e.named(st, "sort.old", sx("select", h, reg), "(Array Int "+es+")")
-	na := e.freshName("sort.new")
-	st.declare(na, "(Array Int "+es+")")
+	// the new heap component is a fresh constant that differs from the old one
+	// only in the sorted slice's region; the axioms below are phrased over the
+	// very terms later reads produce (select (select H reg) idx), so that
+	// e-matching needs no array reasoning
+	_ = es
+	newH := e.freshName(strings.Trim(c, "|"))
+	st.declare(newH, srt)
+	st.define(eq(newH, sx("store", h, reg, sx("select", newH, reg))))
+	old := sx("select", h, reg)
+	na := sx("select", newH, reg)
 	pi := e.freshName("sort.pi")
 	pinv := e.freshName("sort.pinv")
 	e.addDecl(fmt.Sprintf("(declare-fun %s (Int) Int)", pi))
@@ -185,14 +192,18 @@ func sortSlice(e *Engine, st *State, instr ssa.Instruction, fn *ssa.Function, ar
 	qi, qj := quoteSym("q$i"), quoteSym("q$j")
 	inr := func(v string) string { return and(sx("<=", "0", v), sx("<", v, ln)) }
 	// permutation
-	st.assume(fmt.Sprintf("(forall ((%s Int)) (! (=> %s (and %s (= (%s (%s %s)) %s) (= (select %s (+ %s %s)) (select %s (+ %s (%s %s)))))) :pattern ((select %s (+ %s %s))) :pattern ((%s %s))))",
-		qi, inr(qi), inr(sx(pi, qi)), pinv, pi, qi, qi, na, off, qi, old, off, pi, qi, na, off, qi, pi, qi))
-	st.assume(fmt.Sprintf("(forall ((%s Int)) (! (=> %s (and %s (= (%s (%s %s)) %s))) :pattern ((%s %s))))",
-		qi, inr(qi), inr(sx(pinv, qi)), pi, pinv, qi, qi, pinv, qi))
+	perm := func(f, g, a, b string) string {
+		// forall i in range: f(i) in range, g(f(i)) = i, a[at(off,i)] = b[at(off,f(i))]
+		return fmt.Sprintf("(forall ((%s Int)) (! (=> %s (and %s (= (%s (%s %s)) %s) (= (select %s %s) (select %s %s)))) :pattern ((select %s %s)) :pattern ((%s %s))))",
+			qi, inr(qi), inr(sx(f, qi)), g, f, qi, qi, a, e.at(off, qi), b, e.at(off, sx(f, qi)), a, e.at(off, qi), f, qi)
+	}
+	st.assume(perm(pi, pinv, na, old))
+	st.assume(perm(pinv, pi, old, na))
 	// outside the slice window nothing changes
 	st.assume(fmt.Sprintf("(forall ((%s Int)) (! (=> (not (and (<= %s %s) (< %s (+ %s %s)))) (= (select %s %s) (select %s %s))) :pattern ((select %s %s))))",
 		qi, off, qi, qi, off, ln, na, qi, old, qi, na, qi))
-	e.heapSet(st, c, srt, sx("store", h, reg, na))
+	st.heap[c] = newH
+	st.ghost["$sort:"+c] = srt
 	// sortedness: forall i<j in range: !less(j, i), with less evaluated on the new state
 	e.quiet++
 	base := st.snapshot()
